@@ -80,30 +80,23 @@ fn history_strategy(maxlen: usize) -> BoxedStrategy<History> {
         .boxed()
 }
 
-/// the workload of the silence check: touches every vocabulary arm of every language through every public function
-pub fn silent_workload(seed: u64) -> u64 {
-    let mut n = 0u64;
+/// the workload of the silence check: (language, text) items touching every vocabulary arm of every
+/// language; each is run through every public function at two thresholds
+pub fn silent_items(seed: u64) -> Vec<(String, String)> {
+    let mut items: Vec<(String, String)> = vec![];
     for l in LANGS {
-        let lg = new_lang(l);
-        let mut run = |text: &str| {
-            for f in 0..NFUNCS {
-                for th in [0.0f64, 10.0] {
-                    let _ = perform(&lg, &Call { f, lang: l.to_string(), text: text.to_string(), th_bits: th.to_bits() });
-                    n += 1;
-                }
-            }
-        };
+        let mut add = |text: String| items.push((l.to_string(), text));
         for k in (0..2000u64).chain([10_000, 21_000, 100_000, 1_000_000, 2_000_000, 1_000_000_000, 3_000_000_000, 999_999_999_999]) {
-            run(&spell::cardinal(l, k, &mut Canon).join(" "));
+            add(spell::cardinal(l, k, &mut Canon).join(" "));
             if k % 7 == 0 {
                 let bytes = [(k % 251) as u8, (k % 241) as u8, (k % 239) as u8, 200, 100, 255, 3, 77, 190, 254];
-                run(&spell::cardinal(l, k, &mut Bytes::new(&bytes)).join(" "));
+                add(spell::cardinal(l, k, &mut Bytes::new(&bytes)).join(" "));
             }
         }
         for k in 1..200u64 {
             for infl in [0u8, 70, 140, 255] {
                 if let Some((w, _)) = spell::ordinal(l, k, &mut Bytes::new(&[infl])) {
-                    run(&w.join(" "));
+                    add(w.join(" "));
                 }
             }
         }
@@ -111,14 +104,14 @@ pub fn silent_workload(seed: u64) -> u64 {
             let mut w = spell::cardinal(l, 3, &mut Canon);
             w.push(spell::decimal_sep(l).to_string());
             w.extend(spell::fraction(l, d, &mut Canon));
-            run(&w.join(" "));
+            add(w.join(" "));
         }
         let v = vocab_of(l);
         for w in v.number_words.iter().chain(v.classes.iter().flatten()) {
-            run(w);
+            add(w.clone());
         }
         for w in v.linking.iter().chain(v.fillers.iter()) {
-            run(&format!("{} {} {}", v.classes[0][0], w, v.classes[0][1]));
+            add(format!("{} {} {}", v.classes[0][0], w, v.classes[0][1]));
         }
     }
     // generated sentences
@@ -126,10 +119,55 @@ pub fn silent_workload(seed: u64) -> u64 {
     let strat = call_strategy();
     for _ in 0..20_000 {
         let c = strat.new_tree(&mut runner).unwrap().current();
-        let _ = perform(lang(&c.lang), &c);
-        n += 1;
+        items.push((c.lang, c.text));
+    }
+    items
+}
+pub fn silent_workload(seed: u64, from: usize, to: usize) -> u64 {
+    let items = silent_items(seed);
+    let langs: Vec<Language> = LANGS.iter().map(|l| new_lang(l)).collect();
+    let mut n = 0u64;
+    for (l, text) in items.iter().take(to.min(items.len())).skip(from) {
+        for f in 0..NFUNCS {
+            for th in [0.0f64, 10.0] {
+                let _ = perform(&langs[lang_index(l)], &Call { f, lang: l.clone(), text: text.clone(), th_bits: th.to_bits() });
+                n += 1;
+            }
+        }
     }
     n
+}
+/// run the child on items [from, to): returns (stdout bytes, stderr bytes, finished, calls)
+fn silent_child(seed: u64, from: usize, to: usize) -> (Vec<u8>, Vec<u8>, bool, u64) {
+    let exe = std::env::current_exe().unwrap_or_else(|_| infra("cannot locate own executable for the silence check"));
+    let status_file = std::env::temp_dir().join(format!("t2n-verif-silent-{}-{}-{}-{}.status", std::process::id(), seed, from, to));
+    let _ = std::fs::remove_file(&status_file);
+    let mut child = std::process::Command::new(exe)
+        .arg("--silent-worker")
+        .arg(&status_file)
+        .arg(from.to_string())
+        .arg(to.to_string())
+        .env("VERIF_SEED", seed.to_string())
+        .stdin(std::process::Stdio::null())
+        .stdout(std::process::Stdio::piped())
+        .stderr(std::process::Stdio::piped())
+        .spawn()
+        .unwrap_or_else(|e| infra(&format!("cannot spawn the silent worker: {}", e)));
+    let (mut so, mut se) = (child.stdout.take().unwrap(), child.stderr.take().unwrap());
+    let t_err = std::thread::spawn(move || {
+        let mut b = Vec::new();
+        let _ = se.read_to_end(&mut b);
+        b
+    });
+    let mut out = Vec::new();
+    let _ = so.read_to_end(&mut out);
+    let err = t_err.join().unwrap_or_default();
+    let st = child.wait().unwrap_or_else(|e| infra(&format!("silent worker: {}", e)));
+    let status = std::fs::read_to_string(&status_file).unwrap_or_default();
+    let _ = std::fs::remove_file(&status_file);
+    let ok = st.success() && status.starts_with("done ");
+    let n = status.get(5..).and_then(|x| x.trim().parse().ok()).unwrap_or(0);
+    (out, err, ok, n)
 }
 
 impl Property for C14 {
@@ -193,45 +231,35 @@ impl Property for C14 {
             return Err((format!("thread {} sharing an interpreter got a different result for call {:?}: {:?}, fresh single-threaded result {:?}", th, calls[i], got, expected[i]), serde_json::to_value(vec![calls[i].clone()]).unwrap()));
         }
         // --- silence -----------------------------------------------------------------------------
-        let exe = std::env::current_exe().map_err(|e| (format!("infra: current_exe: {}", e), json!([])));
-        let exe = match exe {
-            Ok(e) => e,
-            Err(_) => infra("cannot locate own executable for the silence check"),
-        };
-        let status_file = std::env::temp_dir().join(format!("t2n-verif-silent-{}-{}.status", std::process::id(), seed));
-        let _ = std::fs::remove_file(&status_file);
-        let mut child = std::process::Command::new(exe)
-            .arg("--silent-worker")
-            .arg(&status_file)
-            .env("VERIF_SEED", seed.to_string())
-            .stdin(std::process::Stdio::null())
-            .stdout(std::process::Stdio::piped())
-            .stderr(std::process::Stdio::piped())
-            .spawn()
-            .unwrap_or_else(|e| infra(&format!("cannot spawn the silent worker: {}", e)));
-        let (mut so, mut se) = (child.stdout.take().unwrap(), child.stderr.take().unwrap());
-        let t_err = std::thread::spawn(move || {
-            let mut b = Vec::new();
-            let _ = se.read_to_end(&mut b);
-            b
-        });
-        let mut out = Vec::new();
-        let _ = so.read_to_end(&mut out);
-        let err = t_err.join().unwrap_or_default();
-        let st = child.wait().unwrap_or_else(|e| infra(&format!("silent worker: {}", e)));
-        let status = std::fs::read_to_string(&status_file).unwrap_or_default();
-        let _ = std::fs::remove_file(&status_file);
+        let total_items = silent_items(seed).len();
+        let (out, err, ok, n) = silent_child(seed, 0, total_items);
         if !out.is_empty() || !err.is_empty() {
+            // bisect to one workload item so that the report names a minimal input
+            let (mut lo, mut hi) = (0usize, total_items);
+            while hi - lo > 1 {
+                let mid = (lo + hi) / 2;
+                let (o, e, _, _) = silent_child(seed, lo, mid);
+                if !o.is_empty() || !e.is_empty() {
+                    hi = mid;
+                } else {
+                    lo = mid;
+                }
+            }
+            let items = silent_items(seed);
+            let (l, text) = items.get(lo).cloned().unwrap_or_default();
+            let (o1, e1, _, _) = silent_child(seed, lo, lo + 1);
             let show = |b: &[u8]| String::from_utf8_lossy(&b[..b.len().min(300)]).to_string();
             return Err((
-                format!("library calls wrote to the standard streams: {} bytes on stdout, {} bytes on stderr; stdout starts {:?}; stderr starts {:?}", out.len(), err.len(), show(&out), show(&err)),
-                json!([{"f": 1, "lang": "nl", "text": "silence-workload", "th_bits": 0}]),
+                format!(
+                    "library calls wrote to the standard streams: {} bytes on stdout, {} bytes on stderr over the whole workload; smallest reproducing item: lang {} text {:?} ({} / {} bytes); stdout starts {:?}; stderr starts {:?}",
+                    out.len(), err.len(), l, text, o1.len(), e1.len(), show(if o1.is_empty() { &out } else { &o1 }), show(if e1.is_empty() { &err } else { &e1 })
+                ),
+                json!([{"f": 1, "lang": l, "text": text, "th_bits": 0}]),
             ));
         }
-        if !st.success() || !status.starts_with("done ") {
-            infra(&format!("the silent worker did not finish (status {:?}, file {:?}); not a silence verdict", st.code(), status));
+        if !ok {
+            infra("the silent worker did not finish; not a silence verdict");
         }
-        let n: u64 = status[5..].trim().parse().unwrap_or(0);
         obs.evaluations += n;
         obs.label("silent-worker-calls-with-empty-pipes");
         Ok(())
